@@ -28,7 +28,7 @@ Lemma lookup_all_exact ops t :
     NoDup lsh /\ NoDup lpl /\
     (forall c s, In (c, s) lsh <->
        (s_share s <> [] /\ sp_get (c, s_share s, s_filter s) (spec_run ops) = Some s /\
-        lm (split t) (split (s_filter s)) = true)) /\
+        topic_match t (s_filter s) = true)) /\
     (forall c s, In (c, s) lpl <->
        (s_share s = [] /\ sp_get (c, [], s_filter s) (spec_run ops) = Some s /\ topic_match t (s_filter s) = true)).
 Proof.
@@ -244,7 +244,7 @@ Qed.
 (* node n holds (in the federation tree described by sp) a subscription matching topic t *)
 Definition node_matches (sp : spec) (n t : str) : Prop :=
   exists g f s, sp_get (n, g, f) sp = Some s /\
-                (if is_empty g then topic_match t f else lm (split t) (split f)) = true.
+                topic_match t f = true.
 Definition node_plain_matches (sp : spec) (n t : str) : Prop :=
   exists f s, sp_get (n, [], f) sp = Some s /\ topic_match t f = true.
 
@@ -254,8 +254,7 @@ Lemma ents_node_matches ops t x s :
 Proof.
   intros Hwf Ht Hnw Hin. destruct (lookup_all_exact ops t Hwf Ht Hnw) as (lsh & lpl & Hall & _ & _ & _ & _ & Hsh & Hpl).
   rewrite Hall in Hin. apply in_app_or in Hin as [Hin|Hin].
-  - apply Hsh in Hin as (Hg & Hget & Hlm). exists (s_share s), (s_filter s), s. split; [exact Hget|].
-    apply is_empty_false in Hg. now rewrite Hg.
+  - apply Hsh in Hin as (Hg & Hget & Hlm). exists (s_share s), (s_filter s), s. split; [exact Hget|exact Hlm].
   - apply Hpl in Hin as (Hg & Hget & Hm). exists [], (s_filter s), s. split; [exact Hget|exact Hm].
 Qed.
 
@@ -293,8 +292,8 @@ Lemma fr_plain_exact st local_ops fed_ops m :
   r_local st = db_run local_ops -> r_fed st = db_run fed_ops ->
   wf_ops local_ops = true -> wf_ops fed_ops = true ->
   m_retained m = false -> m_topic m <> [] -> no_wild_levels (split (m_topic m)) = true ->
-  (forall c g f s, g <> [] -> sp_get (c, g, f) (spec_run local_ops) = Some s -> lm (split (m_topic m)) (split f) = false) ->
-  (forall c g f s, g <> [] -> sp_get (c, g, f) (spec_run fed_ops) = Some s -> lm (split (m_topic m)) (split f) = false) ->
+  (forall c g f s, g <> [] -> sp_get (c, g, f) (spec_run local_ops) = Some s -> topic_match (m_topic m) f = false) ->
+  (forall c g f s, g <> [] -> sp_get (c, g, f) (spec_run fed_ops) = Some s -> topic_match (m_topic m) f = false) ->
   snd (fst (fr_send_message st m)) = false /\ snd (fr_send_message st m) = None /\
   forall n q, aget n (r_peers st) = Some q ->
     (node_plain_matches (spec_run fed_ops) n (m_topic m) ->
